@@ -157,7 +157,9 @@ type method struct {
 	exp  func(b []byte) expectation
 }
 
-func u64(v uint64, err error) callResult { return callResult{err: err, val: v, hasVal: true, count: -1} }
+func u64(v uint64, err error) callResult {
+	return callResult{err: err, val: v, hasVal: true, count: -1}
+}
 
 func sl[T any](xs []T, err error, sz int) callResult {
 	return callResult{err: err, count: len(xs), capB: cap(xs) * sz}
@@ -434,7 +436,10 @@ func (w *totalWorker) one(m *method, in, backup []byte, d *csproto.Decoder, fast
 		viol("nested-invoked-on-malformed", "nested decoder was invoked although the declared length exceeds the input")
 	}
 	if measure {
-		limit := uint64(64*len(in) + 64<<10)
+		// linear in the input with a generous constant: a packed list of 1-byte varints becomes 8-byte elements, and
+		// append-growth of the result slice allocates a multiple of the final size in total (measured: 89 bytes per
+		// input byte for 4 KiB of packed uint64). The defect class in view is gigabytes for a handful of bytes.
+		limit := uint64(256*len(in) + 64<<10)
 		if alloc > limit {
 			// re-measure twice on a fresh decoder; take the minimum
 			minAlloc := alloc
